@@ -109,6 +109,15 @@ def formula_chars(f, acc):
             formula_chars(x, acc)
 
 
+class CT(tuple):
+    """(formula, polarity) with the number of token appends that precede the test on its path."""
+
+    def __new__(cls, f, pol, after=0):
+        t = super().__new__(cls, (f, pol))
+        t.after = after
+        return t
+
+
 class Emit:
     __slots__ = ("value", "type", "pos", "node", "value_text")
 
@@ -257,13 +266,14 @@ class LexModel:
             node = st
             while True:
                 f = parse_cond(node.test, self.consts)
+                k = len(leaf.appends)
                 l2 = leaf.clone()
-                l2.conds = l2.conds + negs + [(f, True)]
+                l2.conds = l2.conds + negs + [CT(f, True, k)]
                 sub = []
                 self._exec(node.body, l2, sub, guarded)
                 for s in sub:
                     self._exec(rest, s, out, guarded) if not s.raises else out.append(s)
-                negs = negs + [(f, False)]
+                negs = negs + [CT(f, False, k)]
                 if len(node.orelse) == 1 and isinstance(node.orelse[0], ast.If):
                     node = node.orelse[0]
                     continue
@@ -391,3 +401,89 @@ class LexModel:
 
     def target(self, leaf):
         return leaf.state if leaf.next_state is None else leaf.next_state
+
+
+# ----------------------------------------------------------------------------------------------------
+class SimUnsupported(Exception):
+    pass
+
+
+def _eval_formula_concrete(f, c, token, consts):
+    op = f[0]
+    if op == "atom":
+        a = f[1]
+        if a.kind == "ch_eq":
+            return c == a.data
+        if a.kind == "ch_in":
+            return c in a.data
+        if a.kind == "tok_eq":
+            return token == a.data
+        if a.kind == "tok_in":
+            return token in a.data
+        if a.kind == "tok_truthy":
+            return bool(token)
+        if a.kind == "tok_endswith":
+            return token.endswith(a.data)
+        raise SimUnsupported(a.kind)
+    if op == "not":
+        return not _eval_formula_concrete(f[1], c, token, consts)
+    vals = (_eval_formula_concrete(x, c, token, consts) for x in f[1])
+    return all(vals) if op == "and" else any(vals)
+
+
+def simulate(lm, text, max_steps=10000):
+    """Run the EXTRACTED scanner table (not the repository's code) over `text`; returns [(value, type)].
+    Only the effects the table models are interpreted; anything else raises SimUnsupported."""
+    script = text + " "
+    pos, state, token, out = 0, 0, "", []
+    steps = 0
+    while pos < len(script):
+        steps += 1
+        if steps > max_steps:
+            raise SimUnsupported("no progress")
+        c = script[pos]
+        pos += 1
+        taken = None
+        def tok_after(leaf, k):
+            t = token
+            for a in leaf.appends[:k]:
+                t += c if a[0] == "ch" else (a[1] if a[0] == "lit" else "")
+            return t
+
+        for leaf in lm.states.get(state, []):
+            if all(_eval_formula_concrete(ct[0], c, tok_after(leaf, getattr(ct, "after", 0)), lm.consts) == ct[1]
+                   for ct in leaf.conds):
+                taken = leaf
+                break
+        if taken is None:
+            raise SimUnsupported(f"no transition in state {state} on {c!r}")
+        if taken.raises:
+            out.append(("<error>", "error"))
+            return out
+        if taken.conversions or taken.token_rewrites or any(a[0] == "expr" for a in taken.appends):
+            # numeric rewrites: keep the raw text (good enough for delimiter questions)
+            pass
+        # effects in source order are: appends, emits, reset - the table keeps them by kind; emits that use
+        # `token` are evaluated after the appends of the same leaf (true for every branch of the scanner)
+        for a in taken.appends:
+            if a[0] == "ch":
+                token += c
+            elif a[0] == "lit":
+                token += a[1]
+        for e in taken.emits:
+            import ast as _ast
+            if isinstance(e.value, _ast.Constant):
+                out.append((e.value.value, e.type))
+            elif isinstance(e.value, _ast.Name) and e.value.id == "token":
+                out.append((token, e.type))
+            elif isinstance(e.value, _ast.Name) and e.value.id == "ch":
+                out.append((c, e.type))
+            else:
+                out.append((token, e.type))
+        if taken.token_reset:
+            token = ""
+        if taken.next_state is not None:
+            state = taken.next_state
+        if taken.unread:
+            pos -= 1
+    return out
